@@ -74,10 +74,15 @@ def run(chk):
         it = lp.iter
         if isinstance(it, ast.Name) and fn.one_def(it.id) is not None:
             it = fn.one_def(it.id)
-        chk.check(src(it) in ("self.subscribers[can_id]", "list(self.subscribers[can_id])", "tuple(self.subscribers[can_id])"), "R2",
+        # `self.subscribers.get(can_id, <empty literal>)` is the guarded lookup in one expression: the list of can_id when there is
+        # one, nothing to iterate otherwise
+        inner_it = it.args[0] if isinstance(it, ast.Call) and dotted(it.func) in ("list", "tuple") and len(it.args) == 1 else it
+        get_form = isinstance(inner_it, ast.Call) and dotted(inner_it.func) == "self.subscribers.get" and len(inner_it.args) == 2 and not inner_it.keywords \
+            and src(inner_it.args[0]) == "can_id" and isinstance(inner_it.args[1], (ast.Tuple, ast.List)) and not inner_it.args[1].elts
+        chk.check(get_form or src(it) in ("self.subscribers[can_id]", "list(self.subscribers[can_id])", "tuple(self.subscribers[can_id])"), "R2",
                   f"{NET}:Network.notify | list of exactly can_id", no.loc(lp), f"iterates {src(it)}")
         g = [src(e) for e, p in fn.facts_at(lp) if p]
-        chk.check("can_id in self.subscribers" in g, "R2", f"{NET}:Network.notify | guarded lookup", no.loc(lp), f"loop under {g}")
+        chk.check(get_form or "can_id in self.subscribers" in g, "R2", f"{NET}:Network.notify | guarded lookup", no.loc(lp), f"loop under {g}")
         calls = [c for c in ast.walk(lp) if isinstance(c, ast.Call) and dotted(c.func) == src(lp.target)]
         ok = len(calls) == 1 and [src(a) for a in calls[0].args] == ["can_id", "data", "timestamp"] and not calls[0].keywords and len(lp.body) == 1
         chk.check(ok, "R2", f"{NET}:Network.notify | callback(can_id, data, timestamp) once each", no.loc(lp), f"loop body {[src(s) for s in lp.body]}")
